@@ -1,14 +1,26 @@
 package v200
 
 import (
-	"bytes"
+	"context"
 
 	"github.com/aergoio/aergo-lib/log"
 	"github.com/aergoio/aergo/v2/internal/network"
 	"github.com/aergoio/aergo/v2/p2p/p2pcommon"
+	"github.com/aergoio/aergo/v2/p2p/p2putil"
 	"github.com/aergoio/aergo/v2/types"
 	vf "github.com/aergoio/aergo/v2/zzvf"
 )
+
+// C18.c — handshake strictness of the v2.0.0 handshaker.
+//
+// Every job starts from a status that MATCHES the local view (vfMatching) and lets exactly one field differ in an
+// arbitrary (symbolic) way; the obligation of each job is
+//
+//	checkRemoteStatus(status) == nil  <=>  the differing field satisfies its admission rule
+//
+// plus the effects of acceptance (remote meta / best block recorded, nothing written) and of refusal (exactly one
+// go-away on the connection). The product of all fields in ONE job does not finish (ChainID.Read forks per byte, the
+// role map per key), the per-field jobs do.
 
 // ---- environment of the handshaker
 
@@ -23,16 +35,44 @@ func (m *vfVM) GetChainID(no types.BlockNo) *types.ChainID {
 	return m.local
 }
 
+// vfRW is the connection. Written messages are counted. ReadMsg is only executed by the native replay of the
+// direction jobs (the engine replaces receiveRemoteStatus, whose body is protobuf decoding, by vfReceive): it hands the
+// real receiveRemoteStatus the protobuf encoding of the same status.
 type vfRW struct {
 	p2pcommon.MsgReadWriter
-	written int
+	written  int
+	incoming *types.Status
 }
 
 func (w *vfRW) WriteMsg(msg p2pcommon.Message) error { w.written++; return nil }
 
+func (w *vfRW) ReadMsg() (p2pcommon.Message, error) {
+	b, err := p2putil.MarshalMessageBody(w.incoming)
+	if err != nil {
+		return nil, err
+	}
+	return p2pcommon.NewMessageValue(p2pcommon.StatusRequest, p2pcommon.NewMsgID(), p2pcommon.EmptyID, 1, b), nil
+}
+
 // vfSendGoAway replaces (*V200Handshaker).sendGoAway: the notice is protobuf-marshalled (outside the technique); what
 // matters here is that exactly one message goes out on the connection.
 func vfSendGoAway(h *V200Handshaker, msg string) { h.msgRW.WriteMsg(nil) }
+
+// vfSendLocal replaces (*V200Handshaker).sendLocalStatus (protobuf marshalling + one WriteMsg; the context is never
+// cancelled in these jobs).
+func vfSendLocal(h *V200Handshaker, ctx context.Context, st *types.Status) error {
+	return h.msgRW.WriteMsg(nil)
+}
+
+// vfReceive replaces (*V200Handshaker).receiveRemoteStatus (ReadMsg + protobuf decoding): the decoded status is the
+// harness's status object.
+func vfReceive(h *V200Handshaker, ctx context.Context) (*types.Status, error) {
+	return h.msgRW.(*vfRW).incoming, nil
+}
+
+// vfNodeVersion replaces p2pkey.NodeVersion (reads process-global node info that only exists in a running node; the
+// native test binary initialises it from its sample key file).
+func vfNodeVersion() string { return "v2.0.0-vf" }
 
 // address strings offered to the handshake and their classification by network.CheckAddressType (net.ParseIP and a
 // regular expression, outside the technique): vfAddrType replaces it on exactly this pool, natively the real function
@@ -63,89 +103,264 @@ func vfChainID(tag string, l int) *types.ChainID {
 		Consensus: vf.Str(tag+".Consensus", l),
 	}
 	for i := 0; i < l; i++ {
-		vf.Assume(c.Magic[i] != '/') // F2 (C19.f) is a separate, recorded finding
+		vf.Assume(c.Magic[i] != '/') // a '/' inside the strings is refused by ChainID.Bytes (C19.f)
 		vf.Assume(c.Consensus[i] != '/')
 	}
 	return c
 }
 
-// C18.c: V200Handshaker.checkRemoteStatus accepts a remote status only if
-//
-//	the remote chain id decodes and Equals the local chain id for the remote best height,
-//	the best block hash is well-formed (32 bytes), the sender address is an IP or a domain name,
-//	the announced peer id is the id of the connection, the genesis hash equals the local one,
-//	and a peer claiming the agent role names at least one producer;
-//
-// a status that agrees in all of these is accepted. Every refusal sends exactly one go-away.
-func VF_C18_c() {
+var vfGenLens = [4]int{32, 31, 33, 64}
+
+type vfEnv struct {
+	h       *V200Handshaker
+	vm      *vfVM
+	rw      *vfRW
+	local   *types.ChainID
+	peerID  types.PeerID
+	genesis []byte
+	st      *types.Status
+}
+
+// vfMatching builds a handshaker with an arbitrary local view (chain id, genesis hash of genLen bytes, id of the
+// connection's peer) and a remote status that agrees with it in every checked field.
+func vfMatching(genLen int) *vfEnv {
 	l := vf.Param("strLen", 1)
-	local := vfChainID("local", l)
-	vm := &vfVM{local: local}
-	rw := &vfRW{}
-	peerID := types.PeerID(vf.Str("conn.peerID", 2))
-	genesis := vf.Bytes("local.genesis", 2)
-	h := &V200Handshaker{vm: vm, logger: log.NewLogger("vf"), peerID: peerID, msgRW: rw, localGenesisHash: genesis}
+	e := &vfEnv{}
+	e.local = vfChainID("local", l)
+	e.vm = &vfVM{local: e.local}
+	e.rw = &vfRW{}
+	e.peerID = types.PeerID(vf.Str("conn.peerID", 2))
+	e.genesis = vf.Bytes("local.genesis", genLen)
+	e.h = &V200Handshaker{vm: e.vm, logger: log.NewLogger("vf"), peerID: e.peerID, msgRW: e.rw, localGenesisHash: e.genesis}
+	cid, err := e.local.Bytes()
+	vf.Assume(err == nil)
+	e.st = &types.Status{
+		ChainID:       cid,
+		BestHeight:    vf.U64("remote.bestHeight"),
+		BestBlockHash: vf.Bytes("remote.bestHash", 32),
+		Genesis:       append([]byte{}, e.genesis...),
+		NoExpose:      vf.Bool("remote.noExpose"),
+		Sender: &types.PeerAddress{
+			Address: vfAddrPool[0],
+			PeerID:  []byte(e.peerID),
+			Role:    types.PeerRole_Watcher,
+		},
+	}
+	e.rw.incoming = e.st
+	return e
+}
 
-	st := &types.Status{
-		BestHeight: vf.U64("remote.bestHeight"),
-		Genesis:    vf.Bytes("remote.genesis", 2),
-		NoExpose:   vf.Bool("remote.noExpose"),
+// vfBytesEqual: a and b have the same length and the same content (term built without forking; the harness's own
+// definition of BYTE-EQUAL, independent of the comparison used by the code under test).
+func vfBytesEqual(a, b []byte) bool {
+	if len(a) != len(b) {
+		return false
 	}
-	switch vf.Choice("chainIDKind", 3) {
-	case 0: // the local id, re-encoded
-		b, err := local.Bytes()
-		vf.Assume(err == nil)
-		st.ChainID = b
-	case 1: // another well-formed chain id (may or may not coincide)
-		b, err := vfChainID("remote", l).Bytes()
-		vf.Assume(err == nil)
-		st.ChainID = b
-	case 2: // arbitrary short bytes
-		st.ChainID = vf.Bytes("remote.chainIDraw", [3]int{0, 6, 8}[vf.Choice("rawLen", 3)])
+	eq := true
+	for i := range a {
+		eq = vf.And(eq, a[i] == b[i])
 	}
-	st.BestBlockHash = vf.Bytes("remote.bestHash", 32-vf.Choice("hashShort", 2))
-	if vf.Choice("hasSender", 2) == 1 {
-		st.Sender = &types.PeerAddress{
-			Address: vfAddrPool[vf.Choice("addr", 4)],
-			PeerID:  []byte(vf.Str("remote.peerID", 2)),
-			Role:    types.PeerRole(vf.I32("remote.role")),
-		}
-		if vf.Choice("producers", 2) == 1 {
-			st.Sender.ProducerIDs = [][]byte{vf.Bytes("remote.producer", 2)}
-		}
-	}
+	return eq
+}
 
-	err := h.checkRemoteStatus(st)
+func vfAccepted(e *vfEnv, ob string) {
+	vf.Assert(e.rw.written == 0, ob)
+	vf.Assert(e.h.remoteMeta.ID == e.peerID, ob)
+	vf.Assert(e.h.remoteNo == e.st.BestHeight, ob)
+	vf.Assert(vfBytesEqual(e.h.remoteHash[:], e.st.BestBlockHash), ob)
+	vf.Assert(e.h.remoteMeta.Hidden == e.st.NoExpose, ob)
+	vf.Assert(len(e.vm.askedNo) == 1, ob)
+	vf.Assert(e.vm.askedNo[0] == e.st.BestHeight, ob) // the local chain id is the one for the REMOTE best height
+}
 
-	// specification, from the same primitives (built without forking)
-	rc := types.NewChainID()
-	decodeErr := rc.Read(st.ChainID)
-	chainOK := false
-	if decodeErr == nil {
-		chainOK = vf.And(vf.And(rc.Version == local.Version, rc.PublicNet == local.PublicNet),
-			vf.And(rc.MainNet == local.MainNet, vf.And(rc.Magic == local.Magic, rc.Consensus == local.Consensus)))
-	}
-	hashOK := len(st.BestBlockHash) == 32
-	addrOK := st.Sender != nil && vfAddrType(st.Sender.Address) != network.AddressTypeError
-	idOK := false
-	agentOK := true
-	if st.Sender != nil {
-		idOK = string(st.Sender.PeerID) == string(peerID)
-		agentOK = vf.Or(st.Sender.Role != types.PeerRole_Agent, len(st.Sender.ProducerIDs) > 0)
-	}
-	genesisOK := bytes.Equal(genesis, st.Genesis)
-	want := vf.And(vf.And(chainOK, hashOK), vf.And(vf.And(addrOK, idOK), vf.And(genesisOK, agentOK)))
-	vf.Reach("C18.c")
-	vf.Assert((err == nil) == want, "C18.c")
+func vfVerdict(e *vfEnv, err error, want bool, ob string) {
+	vf.Reach(ob)
+	vf.Assert((err == nil) == want, ob)
 	if err == nil {
-		vf.Assert(rw.written == 0, "C18.c")
-		vf.Assert(h.remoteMeta.ID == peerID, "C18.c")
-		vf.Assert(h.remoteNo == st.BestHeight, "C18.c")
-		vf.Assert(h.remoteMeta.Hidden == st.NoExpose, "C18.c")
-		vf.Assert(len(vm.askedNo) == 1, "C18.c")
-		vf.Assert(vm.askedNo[0] == st.BestHeight, "C18.c")
+		vfAccepted(e, ob)
 	} else {
-		vf.Assert(rw.written == 1, "C18.c")
+		vf.Assert(e.rw.written == 1, ob)
 	}
 	vf.Observe("ok", err == nil)
 }
+
+// C18.c.accept: the matching status is accepted, whatever the (common) genesis length and sender address form.
+func VF_C18_c_accept() {
+	e := vfMatching(vfGenLens[vf.Choice("genLen", 4)])
+	e.st.Sender.Address = vfAddrPool[vf.Choice("addr", 2)]
+	e.st.Sender.Role = [3]types.PeerRole{types.PeerRole_Watcher, types.PeerRole_Producer, types.PeerRole_LegacyVersion}[vf.Choice("role", 3)]
+	err := e.h.checkRemoteStatus(e.st)
+	vfVerdict(e, err, true, "C18.c.accept")
+}
+
+// C18.c.genesis: only the genesis field is arbitrary: local and remote genesis are byte strings of 31/32/33/64 bytes
+// (remote also empty) with arbitrary content. Accepted iff BYTE-EQUAL (same length, same bytes): a 33- or 64-byte value
+// whose first 32 bytes are the local hash is refused, and so is a 31-byte value that is a prefix of it.
+func VF_C18_c_genesis() {
+	e := vfMatching(vfGenLens[vf.Choice("genLen", 4)])
+	rl := [5]int{32, 31, 33, 64, 0}[vf.Choice("remoteGenLen", 5)]
+	e.st.Genesis = vf.Bytes("remote.genesis", rl)
+	err := e.h.checkRemoteStatus(e.st)
+	vfVerdict(e, err, vfBytesEqual(e.genesis, e.st.Genesis), "C18.c.genesis")
+}
+
+// C18.c.chainid: only the chain id differs: another well-formed id (arbitrary fields), or arbitrary raw bytes.
+// Accepted iff it decodes and every field equals the local id's.
+func VF_C18_c_chainid() {
+	e := vfMatching(32)
+	l := vf.Param("strLen", 1)
+	if vf.Choice("chainIDKind", 2) == 0 {
+		r := vfChainID("remote", l)
+		b, err := r.Bytes()
+		vf.Assume(err == nil)
+		e.st.ChainID = b
+		want := vf.And(vf.And(r.Version == e.local.Version, r.PublicNet == e.local.PublicNet),
+			vf.And(r.MainNet == e.local.MainNet, vf.And(r.Magic == e.local.Magic, r.Consensus == e.local.Consensus)))
+		err = e.h.checkRemoteStatus(e.st)
+		vfVerdict(e, err, want, "C18.c.chainid")
+		return
+	}
+	// raw bytes: empty, cut inside the fixed part, fixed part only, and the full length of the local encoding
+	full := 4 + 1 + 1 + 2*l + 1
+	e.st.ChainID = vf.Bytes("remote.chainIDraw", [4]int{0, 5, 6, full}[vf.Choice("rawLen", 4)])
+	err := e.h.checkRemoteStatus(e.st)
+	rc := types.NewChainID()
+	want := false
+	if rc.Read(e.st.ChainID) == nil {
+		want = vf.And(vf.And(rc.Version == e.local.Version, rc.PublicNet == e.local.PublicNet),
+			vf.And(rc.MainNet == e.local.MainNet, vf.And(rc.Magic == e.local.Magic, rc.Consensus == e.local.Consensus)))
+	}
+	vfVerdict(e, err, want, "C18.c.chainid")
+}
+
+// C18.c.peerid: only the announced peer id is arbitrary (0..3 bytes against the 2-byte id of the connection).
+func VF_C18_c_peerid() {
+	e := vfMatching(32)
+	e.st.Sender.PeerID = vf.Bytes("remote.peerID", vf.Choice("peerIDLen", 4))
+	err := e.h.checkRemoteStatus(e.st)
+	vfVerdict(e, err, vfBytesEqual(e.st.Sender.PeerID, []byte(e.peerID)), "C18.c.peerid")
+}
+
+// C18.c.addr: only the sender block differs: absent, or an address of each class.
+func VF_C18_c_addr() {
+	e := vfMatching(32)
+	k := vf.Choice("addr", 5)
+	want := false
+	if k == 4 {
+		e.st.Sender = nil
+	} else {
+		e.st.Sender.Address = vfAddrPool[k]
+		want = k < 2
+	}
+	err := e.h.checkRemoteStatus(e.st)
+	vfVerdict(e, err, want, "C18.c.addr")
+}
+
+// C18.c.besthash: only the best block hash is malformed: v2.0.0 refuses anything but 32 bytes.
+func VF_C18_c_besthash() {
+	e := vfMatching(32)
+	n := [5]int{32, 0, 31, 33, 64}[vf.Choice("hashLen", 5)]
+	e.st.BestBlockHash = vf.Bytes("remote.bestHash2", n)
+	err := e.h.checkRemoteStatus(e.st)
+	vfVerdict(e, err, n == 32, "C18.c.besthash")
+}
+
+// C18.c.agent: only the role block differs: arbitrary role number, 0..2 producers, no certificates. A peer claiming
+// the agent role is accepted only if it names at least one producer; an unknown role number is treated as a legacy peer.
+func VF_C18_c_agent() {
+	e := vfMatching(32)
+	role := vf.I32("remote.role")
+	e.st.Sender.Role = types.PeerRole(role)
+	np := vf.Choice("producers", 3)
+	for i := 0; i < np; i++ {
+		e.st.Sender.ProducerIDs = append(e.st.Sender.ProducerIDs, vf.Bytes("remote.producer", 2))
+	}
+	err := e.h.checkRemoteStatus(e.st)
+	want := vf.Or(role != int32(types.PeerRole_Agent), np > 0)
+	vfVerdict(e, err, want, "C18.c.agent")
+	if err == nil {
+		vf.Assert(len(e.h.remoteMeta.ProducerIDs) == np, "C18.c.agent")
+		known := vf.Or(vf.Or(role == int32(types.PeerRole_LegacyVersion), role == int32(types.PeerRole_Producer)),
+			vf.Or(role == int32(types.PeerRole_Watcher), role == int32(types.PeerRole_Agent)))
+		vf.Assert(vf.Implies(known, int32(e.h.remoteMeta.Role) == role), "C18.c.agent")
+		vf.Assert(vf.Implies(!known, e.h.remoteMeta.Role == types.PeerRole_LegacyVersion), "C18.c.agent")
+	}
+}
+
+// ---- both directions: the complete DoForInbound / DoForOutbound with the wire codec replaced (receiveRemoteStatus
+// yields the harness's status, sendLocalStatus/sendGoAway count one written message). A handshake result is produced
+// only for a status that passes every check, it carries what the status announced, and a refused inbound peer is sent
+// nothing but the go-away.
+
+type vfCA struct {
+	types.ChainAccessor
+	best *types.Block
+}
+
+func (c *vfCA) GetBestBlock() (*types.Block, error) { return c.best, nil }
+
+type vfIS struct {
+	p2pcommon.InternalService
+	ca *vfCA
+}
+
+func (s *vfIS) GetChainAccessor() types.ChainAccessor { return s.ca }
+
+// vfOneOff makes one field of the matching status arbitrary; returns the admission rule for that field.
+func vfOneOff(e *vfEnv) bool {
+	switch vf.Choice("field", 6) {
+	case 1: // genesis: same length with arbitrary content, or one byte longer / shorter with arbitrary content
+		n := len(e.genesis) + vf.Choice("genDelta", 3) - 1
+		e.st.Genesis = vf.Bytes("remote.genesis", n)
+		return vfBytesEqual(e.genesis, e.st.Genesis)
+	case 2:
+		e.st.Sender.PeerID = vf.Bytes("remote.peerID", 2)
+		return vfBytesEqual(e.st.Sender.PeerID, []byte(e.peerID))
+	case 3: // chain id: one field of the local id changed
+		r := *e.local
+		r.Version = vf.I32("remote.Version")
+		b, err := r.Bytes()
+		vf.Assume(err == nil)
+		e.st.ChainID = b
+		return r.Version == e.local.Version
+	case 4:
+		e.st.Sender.Address = vfAddrPool[2]
+		return false
+	case 5:
+		e.st.BestBlockHash = vf.Bytes("remote.bestHash2", 31)
+		return false
+	}
+	return true
+}
+
+func vfDirection(inbound bool, ob string) {
+	e := vfMatching(vfGenLens[vf.Choice("genLen", 2)])
+	want := vfOneOff(e)
+	best := &types.Block{Header: &types.BlockHeader{BlockNo: vf.U64("local.bestNo")}, Hash: vf.Bytes("local.bestHash", 32)}
+	e.h.is = &vfIS{ca: &vfCA{best: best}}
+	var res *p2pcommon.HandshakeResult
+	var err error
+	if inbound {
+		res, err = e.h.DoForInbound(context.Background())
+	} else {
+		res, err = e.h.DoForOutbound(context.Background())
+	}
+	vf.Reach(ob)
+	vf.Assert((res != nil) == (err == nil), ob)
+	vf.Assert((err == nil) == want, ob)
+	if err == nil {
+		vf.Assert(res.Meta.ID == e.peerID, ob)
+		vf.Assert(res.BestBlockNo == e.st.BestHeight, ob)
+		vf.Assert(vfBytesEqual(res.BestBlockHash[:], e.st.BestBlockHash), ob)
+		vf.Assert(res.Hidden == e.st.NoExpose, ob)
+		vf.Assert(e.rw.written == 1, ob) // exactly the local status
+	} else if inbound {
+		vf.Assert(e.rw.written == 1, ob) // the go-away and nothing else: no local status for a refused peer
+	} else {
+		vf.Assert(e.rw.written == 2, ob) // local status (sent first), then the go-away
+	}
+	vf.Observe("ok", err == nil)
+}
+
+func VF_C18_c_inbound()  { vfDirection(true, "C18.c.inbound") }
+func VF_C18_c_outbound() { vfDirection(false, "C18.c.outbound") }
